@@ -3,6 +3,7 @@ package main
 import (
 	"fmt"
 	"os"
+	"strconv"
 	"go/constant"
 	"go/token"
 	"go/types"
@@ -649,11 +650,22 @@ func (x *Exec) runUp(fn *ssa.Function, args []AV, h *Heap, p pathInfo, up *stack
 // stateKey: canonical rendering of the frame and of the heap objects
 // reachable from it (objects are renumbered in order of first reference, so
 // garbage and allocation order do not matter).
+var nameCache = map[ssa.Value]string{}
+
+func valName(v ssa.Value) string {
+	if n, ok := nameCache[v]; ok {
+		return n
+	}
+	n := v.Name()
+	nameCache[v] = n
+	return n
+}
+
 func stateKey(fr *frame, h *Heap) string {
 	names := make([]string, 0, len(fr.vals))
-	byName := map[string]AV{}
+	byName := make(map[string]AV, len(fr.vals))
 	for v, a := range fr.vals {
-		n := v.Name()
+		n := valName(v)
 		names = append(names, n)
 		byName[n] = a
 	}
@@ -681,7 +693,14 @@ func stateKey(fr *frame, h *Heap) string {
 		if o == nil {
 			continue
 		}
-		fmt.Fprintf(&b, "#%d%c%d%v%d", i+1, o.kind, o.minLen, o.exact, o.nonEmp)
+		b.WriteByte('#')
+		b.WriteString(strconv.Itoa(i + 1))
+		b.WriteByte(o.kind)
+		b.WriteString(strconv.Itoa(o.minLen))
+		if o.exact {
+			b.WriteByte('x')
+		}
+		b.WriteString(strconv.Itoa(int(o.nonEmp)))
 		if o.bad {
 			b.WriteByte('!')
 		}
@@ -835,7 +854,7 @@ func (x *Exec) applyFacts(fr *frame, facts []fact, truth bool) bool {
 			want = f.ifT
 		}
 		for v, a := range fr.vals {
-			if v.Name() != f.src {
+			if valName(v) != f.src {
 				continue
 			}
 			na := a.atoms & want
